@@ -73,6 +73,12 @@ def run_history(hist, rules, cfgs, queries):
     return None
 def search(label=None, max_len=2, stride=1):
     rules, cfgs, queries = alphabet(); n = 0
+    # length-3 histories over a reduced alphabet (two overlapping regexes, star and specific selectors, one supported and one
+    # unsupported config): scope-order and replace-in-place effects need an earlier regex to be touched after a later one exists
+    red = [i for i, (rx, op, alg, c) in enumerate(rules) if rx in ('.*', 'conv') and alg in ('min_max_uniform_quantize', 'no_quantize') and c in (0, 3)]
+    for hist in itertools.product(red, repeat=3):
+        n += 1; bad = run_history(hist, rules, cfgs, queries)
+        if bad: return dict(confirmed=True, inputs=dict(history=[str(rules[i]) for i in hist], indices=list(hist)), observed=bad, cases=n)
     for L in range(1, max_len + 1):
         for k, hist in enumerate(itertools.product(range(len(rules)), repeat=L)):
             if L >= 2 and k % stride: continue
